@@ -1434,8 +1434,12 @@ def _zip_build(ctx, sfx, plan, tag):
                 ds.write(unique_id=uid, data=data)
             elif kind == "nc":
                 ds.write_not_completed(unique_id=uid, data=data)
-            else:
+            elif kind == "log":
                 ds.write_log(unique_id=uid, data=data)
+            else:  # "file": a foreign file put into the directory by hand (both stores must ignore / list it alike)
+                q = base / top / uid
+                if q.parent.is_dir():
+                    q.write_text(data)
         except (OSError, ValueError):
             pass
     z = shutil.make_archive(str(base / top), "zip", root_dir=str(base), base_dir=top)
@@ -1515,6 +1519,9 @@ def _zip_plans(rng, n):
             kind = rng.choice(["w", "w", "nc", "nc", "log"])
             uid = rng.choice(ids) if kind != "log" else rng.choice(["run.log", "r2.log"])
             plan.append((kind, uid, f"d{i}"))
+        # foreign files (no dot-files: the zipped store skips them on purpose, the directory store's glob does not)
+        for _ in range(rng.choice([0, 1, 2])):
+            plan.append(("file", rng.choice(["logs/notes.txt", "not_completed/readme.txt", "notes.txt", "not_completed/extra.json", "logs/old.log", "md5/zz.txt", "other.json"]), "foreign"))
         plans.append((sfx, plan))
     return plans
 
